@@ -40,6 +40,14 @@ def run(ctx, chk):
             for n, cid, ef in before[-1:]:
                 site = ef['site']
                 inl = site[0] == b.path and pm.in_loop(site[1])
+                if not inl:
+                    # the read is made by a helper called (inlined) from inside the loop on this path
+                    for e2 in info['path'].effects[:n]:
+                        if e2['kind'] == 'inline' and e2['site'][0] == b.path and pm.in_loop(e2['site'][1]):
+                            hb = fb.body(e2['callee'])
+                            if hb is not None and (e2['callee'] == site[0] or common.reaches_call(
+                                    fb, hb, lambda nm, tgt=site[0]: nm == tgt)):
+                                inl = True
                 chk.ob('C12.O1', 'poll:read-inside-loop', inl, site[2],
                        'the monotonic read %s the poll loop' % ('is inside' if inl else 'is hoisted out of'))
             # O3: as-of shipped in the data message
@@ -60,23 +68,41 @@ def run(ctx, chk):
                             detail += ' (taken from a clock read AFTER the query at %s)' % ef2['site'][2]
                 chk.ob('C12.O3', 'poll:as-of-is-pre-query-read', good, info['sends'][0][1]['site'][2], detail)
         chk.floor('C12.O1', 'paths through the chrony query', n_q, 2)
-        # CFG form: the read's block dominates the query's block
-        reads = [bb for bb, t, fn in common.user_calls(b) if fn and 'clock_gettime' in mir.callee_name(fn)]
-        queries = []
-        for bb, t, fn in common.user_calls(b):
-            if not fn:
-                continue
-            nm = mir.callee_name(fn)
-            nb = fb.body(nm)
-            if is_chrony_query(fn['path']) or (nb is not None and common.reaches_call(fb, nb, is_chrony_query)):
-                queries.append(bb)
-        chk.analysed['call_sites'] += len(reads) + len(queries)
-        for q in queries:
-            dom = [r for r in reads if b.dominates(r, q) and r != q]
-            chk.ob('C12.O1', 'poll:cfg-read-dominates-query', bool(dom), b.where(q),
-                   'clock read block(s) %s dominate the query block bb%d' % (dom, q) if dom else
-                   'no clock read dominates the chrony query')
-        if not queries:
+        # CFG form: a clock read (direct, or a call that reaches one) dominates every call that reaches the chrony query;
+        # a single call that reaches both is checked inside its callee
+        n_q = [0]
+
+        def is_read(nm):
+            return 'clock_gettime' in nm
+
+        def cfg_ok(body, depth=0):
+            reads, queries = [], []
+            for bb, t, fn in common.user_calls(body):
+                if not fn:
+                    continue
+                nm = mir.callee_name(fn)
+                nb = fb.body(nm) or (fb.body(fn['path']) if fn.get('defkind') == 'Closure' else None)
+                if is_read(nm) or (nb is not None and common.reaches_call(fb, nb, is_read)):
+                    reads.append((bb, nb))
+                if is_chrony_query(fn['path']) or is_chrony_query(nm) or (nb is not None and common.reaches_call(fb, nb, is_chrony_query)):
+                    queries.append((bb, nb))
+            chk.analysed['call_sites'] += len(reads) + len(queries)
+            ok_all = True
+            for q, qb in queries:
+                n_q[0] += 1
+                dom = [r for r, _ in reads if r != q and body.dominates(r, q)]
+                if dom:
+                    continue
+                if any(r == q for r, _ in reads) and qb is not None and depth < 4 and cfg_ok(qb, depth + 1)[0]:
+                    continue
+                ok_all = False
+                chk.ob('C12.O1', 'poll:cfg-read-dominates-query', False, body.where(q), 'no clock read dominates the chrony query in %s' % body.path)
+            return ok_all, queries
+        ok_cfg, qs = cfg_ok(b)
+        if ok_cfg and qs:
+            chk.ob('C12.O1', 'poll:cfg-read-dominates-query', True, b.where(qs[0][0]),
+                   'in the poll loop (and the helpers that contain both) a clock read dominates every call that reaches the chrony query')
+        if not qs:
             chk.missing('C12.O1', 'chrony query call site in the poll loop')
 
     # ---------------------------------------------------------------- O2 client
